@@ -228,6 +228,13 @@ struct WorkerProc { pid_t pid = -1; int fd = -1; std::string buf; uint64_t cur_s
 int check_main(int argc, char **argv) {
     if (argc >= 3 && !strcmp(argv[1], "replay")) { bool quiet = argc > 3 && !strcmp(argv[3], "--quiet"); return replay_file(argv[2], quiet); }
     if (argc >= 2 && !strcmp(argv[1], "list")) { for (auto &id : all_profile_ids()) printf("%s\n", id.c_str()); return 0; }
+    if (argc >= 5 && !strcmp(argv[1], "mkreplay")) {   // mkreplay <id> <seed> <out.json>: write the (unshrunk) violating program of a seed as a replay file
+        const Profile *pf = find_profile(argv[2]); if (!pf) return 2; uint64_t sd = strtoull(argv[3], nullptr, 10); Program p = pf->gen(sd, false); RunResult r = pf->check(p);
+        if (r.violations.empty()) { printf("seed %llu does not violate\n", (unsigned long long)sd); return 1; }
+        Json j = Json::obj(); j.set("property", pf->id).set("signature", r.signature()).set("violation_kind", r.violations[0].kind).set("violation_detail", r.violations[0].detail).set("event_hash", (long long)r.st.ev_hash).set("program", program_to_json(p)).set("readable", program_to_text(p, 60));
+        spit(argv[4], j.dump(1)); printf("%s: %s\n", argv[4], r.signature().c_str()); return 0; }
+    if (argc >= 4 && !strcmp(argv[1], "sigs")) { const Profile *pf = find_profile(argv[2]); if (!pf) return 2; long n = atol(argv[3]); uint64_t b0 = argc > 4 ? strtoull(argv[4], nullptr, 10) : 1;
+        for (long i = 0; i < n; i++) { Program p = pf->gen(b0 + i, false); RunResult r = pf->check(p); if (!r.violations.empty()) { std::string d = r.violations[0].detail; size_t c = d.find("): "); printf("%llu\t%s\t%s\n", (unsigned long long)(b0 + i), r.violations[0].kind.c_str(), (c == std::string::npos ? d : d.substr(c + 3)).substr(0, 110).c_str()); } } return 0; }
     if (argc >= 4 && !strcmp(argv[1], "crashtest")) { const Profile *pf = find_profile(argv[2]); if (!pf) return 2; Program p = pf->gen(strtoull(argv[3], nullptr, 10), false); printf("crashes_in_child=%d\n", (int)crashes_in_child(*pf, p)); return 0; }
     if (argc >= 4 && !strcmp(argv[1], "print")) { const Profile *pf = find_profile(argv[2]); if (!pf) return 2; Program p = pf->gen(strtoull(argv[3], nullptr, 10), argc > 4); Model m; annotate(m, p); printf("%s\n", program_to_text(p, 500).c_str()); return 0; }
     if (argc >= 4 && !strcmp(argv[1], "show")) {   // show <id> <seed>: print the generated program and run it once
@@ -352,20 +359,46 @@ int check_main(int argc, char **argv) {
             }
             continue;
         }
+        // re-running, shrinking and replaying happen in a child process: a defective library may corrupt memory while we do it
+        int pfd2[2]; if (pipe(pfd2)) { perror("pipe"); exit(2); }
+        fflush(stdout);
+        pid_t cpid = fork();
+        if (cpid == 0) {
+            close(pfd2[0]); int code = 0; std::string outpath;
+            do {
         if (f.variant >= 0 && pf->variants) { RunResult br = pf->check(p); auto vs = pf->variants(p, br, thorough); if (f.variant < (int)vs.size()) p = vs[f.variant]; }
         RunResult r1, r2; Program a = p, b = p; std::string s1 = run_sig(*pf, a, &r1), s2 = run_sig(*pf, b, &r2);
-        if (s1 != f.sig || s2 != f.sig || r1.st.ev_hash != r2.st.ev_hash) { printf("INFRASTRUCTURE: violation at seed %llu is not deterministic (sig %s / %s / %s)\n", (unsigned long long)f.seed, f.sig.c_str(), s1.c_str(), s2.c_str()); exit_code = 2; continue; }
+        if (s1 != f.sig || s2 != f.sig || r1.st.ev_hash != r2.st.ev_hash) { printf("INFRASTRUCTURE: violation at seed %llu is not deterministic (sig %s / %s / %s)\n", (unsigned long long)f.seed, f.sig.c_str(), s1.c_str(), s2.c_str()); code = 2; break; }
         int reruns = 0; Program small = shrink(*pf, p, f.sig, thorough ? 600 : 300, reruns);
         RunResult rs; Program sm = small; run_sig(*pf, sm, &rs);
         unsigned sh = 0; for (char ch : f.sig) sh = sh * 131 + (unsigned char)ch;
         std::string path = write_replay(id, small, rs, f.sig, verif_dir() + "/out/replay", std::to_string(f.seed) + "-" + std::to_string(sh % 100000));
         std::string o; int rc = replay_fresh(path, &o);
-        if (rc != 1) { printf("INFRASTRUCTURE: minimised replay %s does not reproduce in a fresh process (exit %d)\n%s\n", path.c_str(), rc, o.c_str()); exit_code = 2; continue; }
+        if (rc != 1) { printf("INFRASTRUCTURE: minimised replay %s does not reproduce in a fresh process (exit %d)\n%s\n", path.c_str(), rc, o.c_str()); code = 2; break; }
         printf("VIOLATION property=%s replay=%s\n  seed=%llu class=%s shrunk %zu->%zu ops in %d re-runs, %d ranks, %zu faults, %zu schedule deviations\n  %s\n  program: %s\n", id.c_str(), path.c_str(),
                (unsigned long long)f.seed, f.sig.c_str(), p.ops.size(), small.ops.size(), reruns, small.cfg.sim.nprocs, small.faults.size(), small.cfg.sim.deviations.size(),
                rs.violations.empty() ? f.detail.c_str() : rs.violations[0].detail.c_str(), program_to_text(small, 40).c_str());
-        violations++; if (exit_code != 2) exit_code = 1; replay_paths.push_back(path);
+        code = 1; outpath = path;
+            } while (0);
+            fflush(stdout);
+            std::string msg = std::to_string(code) + " " + outpath + "\n"; if (write(pfd2[1], msg.c_str(), msg.size()) < 0) {}
+            _exit(0);
+        }
+        close(pfd2[1]); std::string cres; { char cb[4096]; ssize_t cn; while ((cn = read(pfd2[0], cb, sizeof cb)) > 0) cres.append(cb, cn); } close(pfd2[0]);
+        int cst = 0; waitpid(cpid, &cst, 0);
+        if (cres.empty()) {
+            // the child died while re-running the violating program: that is a crash of this seed
+            RunResult dummy; sim::ViolationInfo v; v.kind = "crash"; v.detail = "process died while re-running a program that had reported: " + f.detail; dummy.violations.push_back(v);
+            std::string path = write_replay(id, p, dummy, "crash", verif_dir() + "/out/replay", std::to_string(f.seed) + "-crash");
+            std::string o; int rc = replay_fresh(path, &o);
+            if (rc >= 128 || rc == 77 || rc == 134) { printf("VIOLATION property=%s replay=%s\n  crash while re-running seed %llu (first report: %s %s); the replay crashes in a fresh process, exit %d\n", id.c_str(), path.c_str(), (unsigned long long)f.seed, f.sig.c_str(), f.detail.substr(0, 300).c_str(), rc); violations++; if (exit_code != 2) exit_code = 1; replay_paths.push_back(path); }
+            else { printf("INFRASTRUCTURE: re-running seed %llu crashed but the replay does not crash in a fresh process (exit %d)\n", (unsigned long long)f.seed, rc); exit_code = 2; }
+            continue;
+        }
+        { int code = atoi(cres.c_str()); size_t sp = cres.find(' '); std::string pth = sp == std::string::npos ? "" : cres.substr(sp + 1); while (!pth.empty() && (pth.back() == '\n' || pth.back() == ' ')) pth.pop_back();
+          if (code == 2) exit_code = 2; else if (code == 1) { violations++; if (exit_code != 2) exit_code = 1; replay_paths.push_back(pth); } }
     }
+    if (violations > 0) exit_code = 1;   // a confirmed, replayable violation decides the verdict even if another candidate could not be confirmed
     if (tot.evals == 0 && exit_code == 0) { printf("INFRASTRUCTURE: no runs completed\n"); exit_code = 2; }
     // 4. evidence
     double wall = now_s() - t0;
